@@ -9,11 +9,12 @@ mkdir -p /tmp/seedwork/eval
 git -C /repo worktree add -q "$W" HEAD || exit 2
 trap 'git -C /repo worktree remove --force "$W" >/dev/null 2>&1; rm -rf /tmp/seedwork/eval/out_$$' EXIT
 ( cd "$W" && PYTHONPATH="$W" /venv/bin/python "$D/demo.py" >/dev/null 2>&1 ); clean_rc=$?
+if [ ! -f /tmp/seedwork/eval/passed_base.txt ]; then     # the unchanged tree, in the scratch worktree (never in /repo: the tests write files)
+  ( cd "$W" && PYTHONPATH="$W" /venv/bin/python -m pytest -q -p no:cacheprovider --timeout=900 --continue-on-collection-errors tests -rA 2>&1 | grep -E "^PASSED" | sort > /tmp/seedwork/eval/passed_base.txt )
+  git -C "$W" clean -fdq
+fi
 git -C "$W" apply "$D/patch.diff" || { echo "PATCH DOES NOT APPLY"; exit 2; }
 ( cd "$W" && PYTHONPATH="$W" /venv/bin/python -m pytest -q -p no:cacheprovider --timeout=900 --continue-on-collection-errors tests -rA 2>&1 | grep -E "^PASSED" | sort > /tmp/seedwork/eval/passed_$$.txt )
-if [ ! -f /tmp/seedwork/eval/passed_base.txt ]; then
-  ( cd /repo && /venv/bin/python -m pytest -q -p no:cacheprovider --timeout=900 --continue-on-collection-errors tests -rA 2>&1 | grep -E "^PASSED" | sort > /tmp/seedwork/eval/passed_base.txt )
-fi
 if diff -q /tmp/seedwork/eval/passed_base.txt /tmp/seedwork/eval/passed_$$.txt >/dev/null; then tests=same; else tests=CHANGED; fi
 ( cd "$W" && PYTHONPATH="$W" /venv/bin/python "$D/demo.py" >/dev/null 2>&1 ); mut_rc=$?
 echo "tests=$tests demo_clean_rc=$clean_rc demo_mutant_rc=$mut_rc"
